@@ -242,6 +242,45 @@ theorem table_forall_anti (vs vs' : List α) (hnd : vs.Nodup) (hnd' : vs'.Nodup)
   exact (table_forall vs' hnd' t ht ρ).2.mp h σ (fun y hy => hσ y (fun hv => hy (hsub y hv)))
 end
 
+section
+variable [Ord α] [Std.TransOrd α] [Std.LawfulEqOrd α]
+
+/-- diagrams: `∀V.f ≤ f ≤ ∃V.f`, with both eliminations succeeding -/
+theorem bdd_sandwich (vs : List α) (hnd : vs.Nodup) (b : Bdd α) (hb : b.WF) :
+    ∃ lo hi, Bdd.forallQ vs b = .ok lo ∧ Bdd.existsQ vs b = .ok hi ∧
+      ∀ ρ, (lo.den ρ = true → b.den ρ = true) ∧ (b.den ρ = true → hi.den ρ = true) := by
+  obtain ⟨lo, h1, _, _, h4⟩ := bdd_forall vs hnd b hb
+  obtain ⟨hi, g1, _, _, g4⟩ := bdd_exists vs hnd b hb
+  exact ⟨lo, hi, h1, g1, fun ρ => ⟨fun h => (h4 ρ).mp h ρ (fun _ _ => rfl),
+    fun h => (g4 ρ).mpr ⟨ρ, fun _ _ => rfl, h⟩⟩⟩
+
+/-- the three representations quantify alike -/
+theorem exists_agree (vs : List α) (hnd : vs.Nodup) (e : Expr α) (t : Table α) (b : Bdd α)
+    (ht : t.WF) (hb : b.WF) (het : ∀ ρ, e.den ρ = t.den ρ) (heb : ∀ ρ, e.den ρ = b.den ρ) :
+    ∃ b', Bdd.existsQ vs b = .ok b' ∧
+      ∀ ρ, (e.existsQ vs).den ρ = (t.existsQ vs).den ρ ∧ (e.existsQ vs).den ρ = b'.den ρ := by
+  obtain ⟨b', g1, _, _, g4⟩ := bdd_exists vs hnd b hb
+  refine ⟨b', g1, fun ρ => ⟨?_, ?_⟩⟩
+  · apply Bool.eq_iff_iff.mpr
+    rw [expr_exists vs hnd, (table_exists vs hnd t ht ρ).2]
+    simp only [het]
+  · apply Bool.eq_iff_iff.mpr
+    rw [expr_exists vs hnd, g4]
+    simp only [heb]
+theorem forall_agree (vs : List α) (hnd : vs.Nodup) (e : Expr α) (t : Table α) (b : Bdd α)
+    (ht : t.WF) (hb : b.WF) (het : ∀ ρ, e.den ρ = t.den ρ) (heb : ∀ ρ, e.den ρ = b.den ρ) :
+    ∃ b', Bdd.forallQ vs b = .ok b' ∧
+      ∀ ρ, (e.forallQ vs).den ρ = (t.forallQ vs).den ρ ∧ (e.forallQ vs).den ρ = b'.den ρ := by
+  obtain ⟨b', g1, _, _, g4⟩ := bdd_forall vs hnd b hb
+  refine ⟨b', g1, fun ρ => ⟨?_, ?_⟩⟩
+  · apply Bool.eq_iff_iff.mpr
+    rw [expr_forall vs hnd, (table_forall vs hnd t ht ρ).2]
+    simp only [het]
+  · apply Bool.eq_iff_iff.mpr
+    rw [expr_forall vs hnd, g4]
+    simp only [heb]
+end
+
 /-- the pre-repair definition `F[all=0] ∘ F[all=1]`, written out, is wrong for two variables:
     `∃{0,1}. x0 xor x1` would be false -/
 theorem all0_all1_wrong :
